@@ -21,17 +21,19 @@ CtlP == {"setter", "bumper", "bump", "zero", "swapown"}
 StrP == {"getStrs", "gstr"}
 FlP == {"getFloats", "gfl"}
 NamedP == {"getScores", "gscores"}
+ByteP == {"getBytes", "gbytes"}
+RuneP == {"getRunes", "grunes"}
 CtorP == {"ctor"}
 PcurP == {"pcur"}
 CbP == {"cbT", "cbSlice", "cbBox"}
-Plain == PtrT \cup ValT \cup SliceP \cup MapP \cup PtrInt \cup PtrArr \cup PtrBox \cup IntV \cup CtorP \cup StrP \cup FlP \cup NamedP
+Plain == PtrT \cup ValT \cup SliceP \cup MapP \cup PtrInt \cup PtrArr \cup PtrBox \cup IntV \cup CtorP \cup StrP \cup FlP \cup NamedP \cup ByteP \cup RuneP
 InlOK == {"getT", "gp", "ifaceT", "ganyT", "ptrs0", "selfT", "gval", "getSlice", "gs", "fieldSl", "methSl", "ifaceSl", "valSl",
           "getMap", "gm", "fieldM", "ifaceM", "valM", "fieldPtr", "elemPtr", "arrPtr", "getBox", "gb", "fieldB", "gi",
-          "getStrs", "gstr", "getFloats", "gfl", "getScores", "gscores"}
+          "getStrs", "gstr", "getFloats", "gfl", "getScores", "gscores", "getBytes", "gbytes", "getRunes", "grunes"}
 
 TypOf(p) == CASE p \in PtrT \cup {"cbT"} -> "ptrT" [] p \in ValT -> "valT" [] p \in SliceP \cup {"cbSlice"} -> "sliceInt"
               [] p \in MapP -> "mapSI" [] p \in PtrInt -> "ptrInt" [] p \in PtrArr -> "ptrArr"
-              [] p \in PtrBox \cup {"cbBox"} -> "ptrBox" [] p \in IntV -> "intv" [] p \in StrP -> "sliceStr" [] p \in FlP -> "sliceFl" [] p \in NamedP -> "namedInts" [] p \in CtorP -> "ctor" [] p \in PcurP -> "pcur" [] OTHER -> "ctl"
+              [] p \in PtrBox \cup {"cbBox"} -> "ptrBox" [] p \in IntV -> "intv" [] p \in StrP -> "sliceStr" [] p \in FlP -> "sliceFl" [] p \in NamedP -> "namedInts" [] p \in ByteP -> "sliceByte" [] p \in RuneP -> "sliceRune" [] p \in CtorP -> "ctor" [] p \in PcurP -> "pcur" [] OTHER -> "ctl"
 ViaOf(p) == CASE p = "setter" -> <<C("R", "R")>> [] p \in {"bumper", "bump", "swapown"} -> <<M("R", "R")>> [] p = "zero" -> <<X("R")>> [] OTHER -> <<>>
 
 MCPaths == {[name |-> p, typ |-> TypOf(p), inl |-> (p \in InlOK), pname |-> (TypOf(p) \notin {"ptrT", "valT", "ctl", "ctor", "pcur", "namedInts"}), via |-> ViaOf(p)]
@@ -72,6 +74,12 @@ MCWrites ==
         CV("cvOwnIdx", "sliceInt", "own", <<>>, 0), CV("cvOwnSort", "sliceInt", "own", <<F("T"), M("own", "R")>>, 0),
         CV("cvOwnMapPut", "mapSI", "own", <<M("own", "R")>>, 0), CV("cvOwnMapIdx", "mapSI", "own", <<>>, 0),
         CV("cvOwnArrSet", "ptrArr", "own", <<M("own", "R")>>, 0), CV("cvOwnTwinSet", "ptrBox", "own", <<M("own", "R")>>, 0)}
+  \* element kinds uint8 / int32: the only sources doOpConvert lets through (to STRING only: byString / ruString are the legal control)
+  \cup {WK(x, "sliceByte") : x \in {"byIdx", "byString"}} \cup {WK(x, "sliceRune") : x \in {"ruIdx", "ruString"}}
+  \cup {CV("cvLibBytesSet", "sliceByte", "L", <<M("L", "R")>>, 0), CV("cvLibBytesSwap", "sliceByte", "L", <<M("L", "R")>>, 0),
+        CV("cvLibBytesSetP", "sliceByte", "L", <<M("L", None)>>, 0), CV("cvOwnBytesSet", "sliceByte", "own", <<M("own", "R")>>, 0),
+        CV("cvLibRunesSet", "sliceRune", "L", <<M("L", "R")>>, 0), CV("cvLibRunesSwap", "sliceRune", "L", <<M("L", "R")>>, 0),
+        CV("cvLibRunesSetP", "sliceRune", "L", <<M("L", None)>>, 0), CV("cvOwnRunesSet", "sliceRune", "own", <<M("own", "R")>>, 0)}
   \* (c) unnamed <-> named
   \cup {CV("cvUnnamedIdx", "namedInts", "U", <<>>, 0), CV("cvUnnamedSort", "namedInts", "U", <<F("T"), M("T", "R")>>, 0)}
 
